@@ -32,3 +32,19 @@ func Leak(k string) int {
 	mu.RUnlock()
 	return 0
 }
+
+var table map[string]int
+
+func merge(dst *map[string]int, k string, v int) {
+	if *dst == nil {
+		*dst = make(map[string]int)
+	}
+	(*dst)[k] = v
+}
+
+// Put hands the address of a package variable to a helper that writes through it, with no lock held.
+func Put(k string, v int) {
+	merge(&table, k, v)
+	mu.Lock()
+	mu.Unlock()
+}
